@@ -136,6 +136,15 @@ class Interp(StmtMixin, ExtMixin, OpsMixin, InterpCore):
             return self.hidden_list(v)
         if isinstance(v, PyObjV) and hasattr(v.obj, "iter_items"):
             return ListV(list(v.obj.iter_items(self)), "list")
+        if isinstance(v, SymIterV):
+            if v.used:
+                return ListV([], "list")     # an iterator yields its items once
+            v.used = True
+            if len(self.loop_stack) > v.born:
+                ctx = self.loop_stack[v.born]
+                cond = Cond("cmp", "==", Num(ep.sym(ctx.var) - ctx.lo), Num(ep.const(0)))
+                return SeqV("guarded", conds=[(cond, True)], part=v.seq)
+            return v.seq
         if isinstance(v, GenV):
             if v.consumed:
                 return ListV([], "list")     # a generator yields its items once
@@ -553,8 +562,26 @@ class Interp(StmtMixin, ExtMixin, OpsMixin, InterpCore):
             return g
         v = self.as_iterable(args[0], node)
         if isinstance(v, SeqV) and v.kind in ("family", "seqmap", "opaque"):
-            return SymIterV(v)
+            return SymIterV(v, born=len(self.loop_stack))
         return ExtMixin.x_iter(self, [v], kwargs, node, env)
+
+    def x_itertools_accumulate(self, args, kwargs, node, env):
+        """itertools.accumulate(xs): running sums, as a one-shot iterator; modelled for a sequence of equal numbers (the k-th
+        item is (k+1) times the number) and for concrete lists"""
+        if kwargs or len(args) != 1:
+            self.err(node, "itertools.accumulate with a function / initial value")
+        seq = self.as_iterable(args[0], node)
+        if isinstance(seq, ListV) and not getattr(seq, "tail", None):
+            out, tot = [], None
+            for it in seq.items:
+                tot = it if tot is None else self.binop(ast.Add(), tot, it, node)
+                out.append(tot)
+            return ExtMixin.x_iter(self, [ListV(out, "list")], {}, node, env)
+        if isinstance(seq, SeqV) and seq.kind == "family" and isinstance(seq.elem, Num) and not seq.elem.rf.depends_on(seq.var):
+            k = ep.sym(seq.var) - seq.lo + ep.const(1)
+            fam = SeqV("family", var=seq.var, lo=seq.lo, hi=seq.hi, elem=Num(k * seq.elem.rf, seq.elem.inexact))
+            return SymIterV(fam, born=len(self.loop_stack))
+        self.err(node, "itertools.accumulate of %r" % (seq,))
 
     def x_zip(self, args, kwargs, node, env):
         if len(args) >= 2 and all(isinstance(a, SymIterV) for a in args) and all(a is args[0] for a in args):
@@ -1105,9 +1132,10 @@ class _NestedPartV(V):
 
 class SymIterV(V):
     """iter(X) for a symbolic sequence X: only draining it in one go (or the zip(it, ..., it) grouper) is modelled"""
-    def __init__(self, seq):
+    def __init__(self, seq, born=0):
         self.seq = seq
         self.used = False
+        self.born = born          # depth of symbolic loops at creation: drained deeper, only the first iteration gets items
 
     def key(self):
         return ("symiter", id(self))
